@@ -113,7 +113,7 @@ func NewSpecs() *Specs {
 	return &Specs{Contracts: map[string]*Contract{}, SpecFns: map[string]*SpecFn{}, Opaque: map[string]bool{}, TypeInvs: map[string][]Clause{}, GhostVars: map[string]*GhostField{}}
 }
 
-var propsRe = regexp.MustCompile(`\[([A-Za-z0-9_, ]+)\]`)
+var propsRe = regexp.MustCompile(`\[(C[0-9]+(?:\s*,\s*C[0-9]+)*)\]`)
 
 var clauseKeywords = map[string]bool{
 	"requires": true, "ensures": true, "check": true, "modifies": true, "loop": true, "invariant": true,
@@ -127,6 +127,14 @@ var topKeywords = map[string]bool{
 // qualify turns a name written inside package pkgPath into a full key.
 func qualify(name, pkgPath string) string {
 	if pkgPath == "" {
+		return name
+	}
+	// already qualified: the receiver type / function name carries a package path
+	head := name
+	if i := strings.Index(name, ")"); strings.HasPrefix(name, "(") && i > 0 {
+		head = name[:i]
+	}
+	if strings.Contains(head, "/") {
 		return name
 	}
 	if strings.HasPrefix(name, "(*") {
